@@ -156,7 +156,7 @@ MUTANTS["C03"] = [
     M("jax-rewrite-other-base", "codegen/jax.py", 'if sym.base.name == "values":', 'if sym.base.name == "states":', "R03.a"),
     M("jax-inplace-store", "templates/jax.py", "        {name} = {name}.at[state_index(key)].set(value)", "        {name}[state_index(key)] = value", "R03.a"),
     M("jax-reduce", "codegen/python.py", "        return reduce(\n            lambda acc, arg: f\"{func}({acc}, {arg})\",\n            [self._print(arg) for arg in expr.args],\n        )", "        args = \", \".join(self._print(arg) for arg in expr.args)\n        return f\"{func}.reduce(({args}))\"", "R03.b"),
-    M("jax-pairwise-drops-operand", "codegen/python.py", "        return reduce(\n            lambda acc, arg: f\"{func}({acc}, {arg})\",\n            [self._print(arg) for arg in expr.args],\n        )", "        args = [self._print(arg) for arg in expr.args]\n        while len(args) > 1:\n            args = [f\"{func}({a}, {b})\" for a, b in zip(args[::2], args[1::2])]\n        return args[0]", "R03.b"),
+    M("jax-nested-first-two-operands", "codegen/python.py", "            [self._print(arg) for arg in expr.args],\n        )", "            [self._print(arg) for arg in expr.args[:2]],\n        )", "R03.b"),
     M("jax-sign-copysign", "codegen/python.py", 'f=self._module_format("numpy.sign")', 'f=self._module_format("numpy.lib.scimath.sign")', "R03.b"),
 ]
 MUTANTS["C08"] = [
